@@ -29,7 +29,7 @@ import (
 // <r> per input: P (parse error) or o=<hex output>;v=<value>;e=<0|1>;p=<-|depth|mem|go>;g=<globals>
 
 func init() {
-	suites["eval"] = suite{gen: evalGen, run: evalRun}
+	suites["eval"] = suite{gen: evalGen, run: evalRunT}
 }
 
 type evalOpts struct {
@@ -59,11 +59,13 @@ func parseEvalOpts(s string) evalOpts {
 // relative to evaluation progress" become enumerable.
 type countingCtx struct {
 	context.Context
-	left int
+	left  int
+	fired bool // the budget ran out during this input: what the run did then depends on HOW the steps were spent
 }
 
 func (c *countingCtx) Err() error {
 	if c.left <= 0 {
+		c.fired = true
 		return context.DeadlineExceeded
 	}
 	c.left--
@@ -89,8 +91,10 @@ func evalInput(s *eval.State, out *bytes.Buffer, text string, o evalOpts) (res s
 		return fmt.Sprintf("o=%s;v=%s;e=%s;p=%s;g=%s", hx(out.String()[start:]), v, b2s(isErr), pk,
 			dumpGlobals(s.VerifRootEnv().VerifStore()))
 	}
+	savedOut := s.Out
 	defer func() {
 		if r := recover(); r != nil {
+			s.Out = savedOut // as repl.EvalOne does: a panic inside a call leaves the call's private buffer installed
 			s.Reset()
 			res = finish("-", false, panicKind(r))
 		}
@@ -140,7 +144,12 @@ func astOf(text string) string {
 
 var memLimitOnce sync.Once
 
-func evalRun(input string) string {
+// evalRun: the session format shared with the consts and values suites; the eval suite itself adds the field t=<0|1>
+func evalRun(input string) string { return evalRunOpt(input, false) }
+
+func evalRunT(input string) string { return evalRunOpt(input, true) }
+
+func evalRunOpt(input string, withT bool) string {
 	initExtensions()
 	// "with a process memory limit configured": the allocation guard compares requests with GOMEMLIMIT
 	memLimitOnce.Do(func() { debug.SetMemoryLimit(256 << 20) })
@@ -183,7 +192,14 @@ func evalRun(input string) string {
 			if i > 0 {
 				sb.WriteByte('/')
 			}
-			sb.WriteString(evalInput(s, out, t, o))
+			r := evalInput(s, out, t, o)
+			if r != "P" && withT {
+				// t=1: the step budget was exhausted during this input.  A cache hit or a register saves steps, so
+				// the configurations are cut at different points: such a case says nothing about C01/C04/C05.
+				cc, _ := s.Context.(*countingCtx)
+				r += ";t=" + b2s(cc != nil && cc.fired)
+			}
+			sb.WriteString(r)
 		}
 	}
 	eval.VerifCacheOff = false
@@ -200,6 +216,11 @@ func evalGen(tier string, r *rng, emit func(string)) {
 	if tier == "thorough" {
 		n = 30000
 	}
+	if prop == "C01" { // every ordered pair of binary operators, unparenthesised, against the documented grouping
+		for k := 0; k < precPairSessions(); k++ {
+			emit(prop + ";steps=200000;" + strings.Join(genPrecPairs(k), "|"))
+		}
+	}
 	for i := 0; i < n; i++ {
 		if prop == "C01" && i%4 == 3 {
 			emit(prop + ";steps=200000;" + genPrecCase(r))
@@ -211,6 +232,8 @@ func evalGen(tier string, r *rng, emit func(string)) {
 			fam = famRedef(r)
 		case prop == "C04" && i%2 == 1:
 			fam = famCache(r)
+		case prop == "C05" && i%8 == 7:
+			fam = famRegsPanic(r)
 		case prop == "C05" && i%4 == 3:
 			fam = famRegs2(r)
 		case prop == "C05" && i%2 == 1:
@@ -236,6 +259,9 @@ func evalGen(tier string, r *rng, emit func(string)) {
 				hs[j] = hx(t)
 			}
 			opts := "steps=200000"
+			if prop == "C05" && i%8 == 7 {
+				opts = "steps=200000,d=70" // the depth guard fires inside the loops
+			}
 			if prop == "C07" && i%6 == 3 {
 				// shipped examples recurse 100000 deep and some mutations make every level cost O(depth) (info):
 				// a small depth limit and step budget keep a case within seconds
